@@ -149,6 +149,9 @@ def tlc_lines(out_path, prefix):
 TRACE_RESULT_RE = re.compile(r'<<\s*"TRACE-RESULT",\s*(\d+),\s*\{([^}]*)\}\s*>>')
 
 
+TRACE_KF_RE = re.compile(r'<<\s*"TRACE-KF",\s*\{([^}]*)\}\s*>>')
+KF_BY_CHUNK = {}    # chunk path -> line numbers the trace spec classified as instances of a known finding
+KF_EVENTS = []      # (source trace, line text) of those events, filled by validate_trace
 TRACE_ENV = {}      # extra environment for trace validation (read by the trace specs through IOEnv)
 
 
@@ -171,6 +174,9 @@ def _validate_chunk(trace_module, cfg, chunk_path, wd, idx, timeout):
         raise ToolError("trace validation did not complete on %s (rc=%d):\n%s" % (chunk_path, r.returncode, r.stdout[-3000:]))
     n = int(m.group(1))
     bad = [int(x) for x in m.group(2).replace(" ", "").split(",") if x]
+    mk = TRACE_KF_RE.search(r.stdout.replace("\n", " "))
+    if mk:
+        KF_BY_CHUNK[chunk_path] = [int(x) for x in mk.group(1).replace(" ", "").split(",") if x]
     return n, bad, (int(st.group(1)) if st else 0)
 
 
@@ -193,6 +199,8 @@ def validate_trace(trace_module, trace_path, wd, cfg="Trace.cfg", chunk=4000, pa
         for off, p, fu in futs:
             n, bad, states = fu.result()
             results.append((off, n, bad, states))
+            for k in KF_BY_CHUNK.pop(p, []):
+                KF_EVENTS.append((trace_path, lines[off + k - 1]))
             os.remove(p)
     total = sum(r[1] for r in results)
     states = sum(r[3] for r in results)
